@@ -111,6 +111,19 @@ fn family(name: &str, n: usize) -> String {
             d.push_str("]><r>&c0;</r>");
             d
         }
+        "entity-cycle-with-lead-in" | "entity-cycle-with-lead-in-attribute" => {
+            // the referenced entity is not on the cycle, it only leads into it
+            let mut d = String::from("<!DOCTYPE r [<!ENTITY lead \"x&c0;\">");
+            for i in 0..n {
+                d.push_str(&format!("<!ENTITY c{} \"&c{};\">", i, (i + 1) % n));
+            }
+            if name.ends_with("attribute") {
+                d.push_str("]><r a=\"&lead;\"/>");
+            } else {
+                d.push_str("]><r>&lead;</r>");
+            }
+            d
+        }
         "empty-comments-in-subset" => format!("<!DOCTYPE r [{}]><r/>", "<!---->".repeat(n)),
         "many-pis" => format!("{}<r/>", "<?p d?>".repeat(n)),
         "cdata-run" => format!("<r>{}</r>", "<![CDATA[]]>".repeat(n)),
@@ -140,6 +153,8 @@ const FAMILIES: &[(&str, &[usize])] = &[
     ("entity-chain-in-attlist-default", &[2, 10, 18, 26, 34, 48]),
     ("entity-chain-in-entity-value", &[2, 10, 18, 26, 34, 48]),
     ("entity-cycle", &[1, 2, 3, 10, 200]),
+    ("entity-cycle-with-lead-in", &[1, 2, 3, 10]),
+    ("entity-cycle-with-lead-in-attribute", &[1, 2, 3, 10]),
     ("empty-comments-in-subset", &[10, 1000, 20000]),
     ("many-pis", &[10, 5000]),
     ("cdata-run", &[10, 5000]),
